@@ -27,12 +27,17 @@ structure PCfg where
   /-- After building the message the local unit is filled from any received unit (instead of
   `unitsReceived[0]`, which is nil unless shard 0 was received). -/
   localFromPresent : Bool
+  /-- No subprocessor is created for a publisher whose peer id does not embed a public key
+  (instead of `NewValidator` panicking in the new goroutine). -/
+  keyGuard : Bool
   deriving DecidableEq, Repr
 
-/-- /repo as of 8f80b72 (none of the three; diffs in /verif/proposed-fixes). -/
-def PCfg.pinned : PCfg := ⟨false, false, false⟩
-def PCfg.current : PCfg := PCfg.pinned
-def PCfg.repaired : PCfg := ⟨true, true, true⟩
+/-- The tree as of 8f80b72 (none of them). -/
+def PCfg.pinned : PCfg := ⟨false, false, false, false⟩
+/-- /repo as of a0ebef4: the UnitFromProto guard is in; the processor is as upstream left it
+(the diffs in /verif/proposed-fixes are not applied). -/
+def PCfg.current : PCfg := ⟨true, false, false, false⟩
+def PCfg.repaired : PCfg := ⟨true, true, true, true⟩
 
 /-! ## unit.go: wire form -/
 
@@ -66,19 +71,29 @@ inductive WOut (α : Type) where
 * the length check loop `for i := range shards[1:] { if len(shards[i]) != shardLen …` compares
   shards `0 … n-2` with shard 0 (the last one is never looked at);
 * `MessageRoot(slice)` is a slice-to-array conversion: run-time panic when the slice is shorter
-  than 32 bytes (guard: error unless exactly 32), the first 32 bytes otherwise;
+  than 32 bytes, the first 32 bytes otherwise (guard: an error unless exactly 32 bytes, checked
+  BEFORE the shard lengths);
 * `ShardIndex(uint64)` truncates to 32 bits. -/
 def unitFromProto (guard : Bool) (pu : ProtoUnit) : WOut (PUnit Bytes) :=
-  match pu.shards with
-  | [] => if guard then .err .noShards else .panic
-  | s0 :: _ =>
-    if (pu.shards.take (pu.shards.length - 1)).any (fun s => s.length != s0.length) then .err .shardLen
-    else if guard && pu.merkleRoot.length != 32 then .err .rootLen
-    else if pu.merkleRoot.length < 32 then .panic
-    else .ok {
+  let lenLoop := fun (s0 : Bytes) =>
+    (pu.shards.take (pu.shards.length - 1)).any (fun s => s.length != s0.length)
+  let unit : PUnit Bytes := {
       committee := fix32 pu.committeeId, publisher := pu.publisher, root := pu.merkleRoot.take 32,
       proof := pu.siblings.map fix32, sig := pu.signature, index := pu.index % 2 ^ 32,
       shards := pu.shards, nonce := pu.nonce % 2 ^ 64 }
+  match pu.shards with
+  | [] => if guard then .err .noShards else .panic
+  | s0 :: _ =>
+    if guard then
+      -- since a0ebef4: no shards, root length, then the shard-length loop
+      if pu.merkleRoot.length != 32 then .err .rootLen
+      else if lenLoop s0 then .err .shardLen
+      else .ok unit
+    else
+      -- before: the loop first, the root conversion (panic if short) when the Unit is built
+      if lenLoop s0 then .err .shardLen
+      else if pu.merkleRoot.length < 32 then .panic
+      else .ok unit
 
 /-- `(*Unit).ToProto`. -/
 def unitToProto (u : PUnit Bytes) : ProtoUnit :=
@@ -188,8 +203,9 @@ inductive ProcOut (H : Type) where
   | panic
 
 /-- `Processor.ProcessMessage(unit, sender, scheduler)` followed by the subprocessor processing
-the unit and `Processor.Run` handling its termination. -/
-def procStep {H : Type} [DecidableEq H] (cfg : Cfg) (pc : PCfg) (f : HashFns H) (rs : RS)
+the unit and `Processor.Run` handling its termination — for a publisher whose validator can be
+built (see `procStep`). -/
+def procStepCore {H : Type} [DecidableEq H] (cfg : Cfg) (pc : PCfg) (f : HashFns H) (rs : RS)
     (sg : SigScheme H) (s : Sched) (p : Proc H) (u : PUnit H) (sender : Bytes) :
     Proc H × ProcOut H :=
   if p.finalized.contains (keyOf u) then (p, .ignored)
@@ -208,5 +224,22 @@ def procStep {H : Type} [DecidableEq H] (cfg : Cfg) (pc : PCfg) (f : HashFns H) 
         if pc.noPoison then (p.dropSub (keyOf u), .handled [] none (some true))
         else (⟨keyOf u :: p.finalized, (p.dropSub (keyOf u)).subs⟩, .handled [] none (some true))
       | .panic => (p, .panic)
+
+/-- The unit would start a NEW subprocessor (key not finalized, no subprocessor yet, local shard
+index known) for a publisher whose peer id does not embed a public key. -/
+def keylessNew {H : Type} [DecidableEq H] (sg : SigScheme H) (s : Sched) (p : Proc H) (u : PUnit H) : Bool :=
+  !p.finalized.contains (keyOf u) &&
+  (match s.shardIndexFor (keyOf u).publisher with | .ok _ => true | .error _ => false) &&
+  (p.findSub (keyOf u)).isNone && !sg.hasKey (keyOf u).publisher
+
+/-- `Processor.ProcessMessage` … as `procStepCore`, except that creating a subprocessor calls
+`NewValidator(key.Publisher, …)`, which PANICS (in the new goroutine: the process dies) when the
+public key cannot be extracted from the publisher's peer id; with `keyGuard` no subprocessor is
+created for such a publisher. -/
+def procStep {H : Type} [DecidableEq H] (cfg : Cfg) (pc : PCfg) (f : HashFns H) (rs : RS)
+    (sg : SigScheme H) (s : Sched) (p : Proc H) (u : PUnit H) (sender : Bytes) :
+    Proc H × ProcOut H :=
+  if keylessNew sg s p u then (p, if pc.keyGuard then .noRoute else .panic)
+  else procStepCore cfg pc f rs sg s p u sender
 
 end Juno.C19
